@@ -11,7 +11,7 @@ import re
 import shutil
 import sys
 
-STAGED = ["/tmp/seed/staged", "/tmp/seed/staged2"]
+STAGED = ["/tmp/seed/staged", "/tmp/seed/staged2", "/tmp/seed/staged3"]
 BENIGN = sorted(glob.glob("/tmp/benign/staged*"))
 OUT = "/verif/seeded"
 
